@@ -26,6 +26,7 @@ var rules = map[string]ruleFn{
 	"C11": ruleC11,
 	"C12": ruleC12,
 	"C13": ruleC13,
+	"C15": ruleC15,
 	"C18": ruleC18,
 	"C20": ruleC20,
 }
